@@ -101,7 +101,8 @@ Definition tx_located (B : bytes) (bodies wits : list item) (aux : item) (i : na
     end /\
     (l_meta t = zero_range \/
      exists f kvs j fk k v, aux = Map f kvs /\ nth_error kvs j = Some (UInt fk k, v) /\
-       (k mod 2 ^ 32)%N = N.of_nat i /\ range_is B (l_meta t) v).
+       (k mod 2 ^ 32)%N = N.of_nat i /\ range_is B (l_meta t) v) /\
+    l_comps t = witness_components (enc w) (fst (l_wit t)).
 
 Lemma wf_children f xs j x : wf (Arr f xs) -> nth_error xs j = Some x -> wf x.
 Proof. intros Hw H. apply wf_arr in Hw. destruct Hw as [_ Hall]. rewrite Forall_forall in Hall. apply Hall. eapply nth_error_In; eauto. Qed.
@@ -187,9 +188,9 @@ Proof.
     assert (Lw : located B (child_off f0 xs 2 + child_off f2 wits i) w) by (eapply located_arr_child; eauto).
     assert (Ebp : bp + length (flat_map enc (firstn i bodies)) = child_off f0 xs 1 + child_off f1 bodies i) by (unfold bp, child_off; lia).
     assert (Ewp : wp + length (flat_map enc (firstn i wits)) = child_off f0 xs 2 + child_off f2 wits i) by (unfold wp, child_off; lia).
-    exists body, w. cbn [l_body l_wit l_outs l_meta]. rewrite Ebp, Ewp.
+    exists body, w. cbn [l_body l_wit l_outs l_meta l_comps fst]. rewrite Ebp, Ewp.
     split; [exact Eb|]. split; [exact Ew|]. split; [split; [exact Lb|reflexivity]|]. split; [split; [exact Lw|reflexivity]|].
-    split.
+    split; [|split; [|reflexivity]].
     + assert (Hwb : wf body) by (eapply (wf_children f1 bodies); eauto).
       assert (Hsb : size_ok body) by (eapply size_ok_located; eauto).
       assert (Hshb : body_shape ind body = true) by (eapply forallb_nth; eauto).
